@@ -153,6 +153,39 @@ template <class DstImg> static void virtual_pair(vh::Ctx& ctx, const char* dname
     }
     ++ctx.witness["virtual_source_views"];
 }
+// Colour conversion stacked on a view whose dereference adaptor already carries run-time state: nth_channel_view(n) of a
+// colour-converted (non-basic) view, then color_converted_view / copy_and_convert_pixels on top.  The expectation is computed from the
+// cmyk pixels directly: channel n of color_convert(cmyk -> rgb), then color_convert(gray -> rgb).  n >= 1 distinguishes a composed
+// function object that kept its inner state from one that was default-constructed.
+VH_GROUP(stacked_adaptors)
+{
+    if (!ctx.take()) return;
+    gil::cmyk8_image_t img(3, 3);
+    int k = 0;
+    for (auto& p : gil::view(img)) { p = gil::cmyk8_pixel_t(uint8_t(10 + 23 * k), uint8_t(200 - 19 * k), uint8_t(5 + 31 * k), uint8_t(3 * k)); ++k; }
+    auto cv = gil::color_converted_view<gil::rgb8_pixel_t>(gil::const_view(img));
+    for (int n = 0; n < 3; ++n)
+    {
+        auto ch = gil::nth_channel_view(cv, n);
+        auto top = gil::color_converted_view<gil::rgb8_pixel_t>(ch);
+        gil::rgb8_image_t dst(3, 3);
+        gil::copy_and_convert_pixels(ch, gil::view(dst));
+        auto it = top.begin();
+        for (int y = 0; y < 3; ++y) for (int x = 0; x < 3; ++x, ++it)
+        {
+            gil::rgb8_pixel_t mid; gil::color_convert(gil::const_view(img)(x, y), mid);
+            gil::gray8_pixel_t g(mid[n]); gil::rgb8_pixel_t want; gil::color_convert(g, want);
+            gil::rgb8_pixel_t a = top(x, y), b = *it, c = gil::view(dst)(x, y);
+            ++ctx.evaluations; if (n > 0) ++ctx.nontrivial;
+            const std::string id = vh::S() << "stacked_adaptors/cmyk8>rgb8>channel" << n << ">rgb8/(" << x << "," << y << ")";
+            if (!(a == want)) ctx.fail(id, "converted-view-differs", vh::S() << "view gives (" << int(a[0]) << "," << int(a[1]) << "," << int(a[2]) << ") expected (" << int(want[0]) << "," << int(want[1]) << "," << int(want[2]) << ")");
+            if (!(b == want)) ctx.fail(id, "converted-view-iterator-differs", "");
+            if (!(c == want)) ctx.fail(id, "copy_and_convert-differs", "");
+        }
+        ++ctx.witness["conversion_stacked_on_stateful_adaptor"];
+    }
+}
+
 VH_GROUP(virtual_views)
 {
     vh::ubsan_counts() = false;
